@@ -120,6 +120,16 @@ def run(ctx):
         h, ln, p, n = row
         payloads = [bytes(n), b'\xff' * n, bytes([0]) * (n - 1) + b'\x01', b'\x80' + bytes(n - 1)]
         payloads += [rng.bytes_(n) for _ in range(n_rand)]
+        # payloads steered so that the encoding BEGINS WITH THE HUMAN PREFIX OF ANOTHER KIND (`B…` block hashes that start with
+        # `BLpk`, `BLsig`, …): the kind of a string is decided by (human prefix of the row, length), never by the longest prefix match
+        for (h2, ln2, p2, n2) in table:
+            if h2 != h and h2.startswith(h):
+                for _ in range(2 if quick else 6):
+                    txt = h2 + bytes(ALPHABET[rng.randrange(58)] for _ in range(ln - len(h2)))
+                    raw = base58.b58decode_int(txt).to_bytes(len(p) + n + 4, 'big') if base58.b58decode_int(txt) < 256 ** (len(p) + n + 4) else b''
+                    if raw[:len(p)] == p:
+                        payloads.append(raw[len(p):len(p) + n])
+                        ctx.count('steered-into-foreign-prefix', f'{h.decode()}->{h2.decode()}')
         for v in payloads:
             real = real_encode(v, h)
             add('encode', f'enc {hx(h)} {hx(v)} {pairs([r[2] + v for r in table if r[0] == h])}',
